@@ -38,7 +38,7 @@ Definition model_ok (c : case) : bool :=
 Definition spec_ok (c : case) : bool :=
   match c with CScen _ _ _ _ _ a => spec_after a | CAfter a => spec_after a end.
 """
-BASE = {"a": 1, "b": 2, "c": 3}
+BASE = {"a": 1, "b": 2, "c": 3, "1": 2, "[2]": 3}
 
 
 def zval(s):
@@ -66,9 +66,84 @@ def after_term(l, with_attempts=True):
         if i >= len(ex) and not with_attempts:
             continue
         atts.append("mkAtt %s %s %s" % (cbool(locked), cbool(a["rejected"]), cbool(a["unchanged"])))
-    return "(mkAfter [%s] %s [%s] %d %s [%s])" % (
+    obs = "[" + "; ".join(zlist([zval(x) for x in (c or [])]) for c in r.get("content") or []) + "]"
+    if with_attempts and l.get("expected") is not None:
+        exp = "[" + "; ".join(zlist([zval(x) for x in (c or [])]) for c in l["expected"]) + "]"
+        must = bool(l.get("must_fail"))
+    else:
+        exp, must = obs, False   # a cancelled run: the content is compared in the uncancelled scenario
+    return "(mkAfter [%s] %s [%s] %d %s [%s] %s %s %s %s)" % (
         "; ".join(cbool(b) for b in l["frozen"]), zlist(r["ic"]),
-        "; ".join(cbool(b) for b in r["probe_ok"]), r["depth_delta"], cbool(r["rerun_ok"]), "; ".join(atts))
+        "; ".join(cbool(b) for b in r["probe_ok"]), r["depth_delta"], cbool(r["rerun_ok"]), "; ".join(atts),
+        obs, exp, cbool(must), cbool(r["outcome"] == "err"))
+
+
+PAIR_FILES = ["starlark/library.go", "starlark/eval.go", "starlark/interp.go", "starlark/value.go", "starlark/iter.go",
+              "starlark/unpack.go", "lib/json/json.go", "lib/proto/proto.go", "starlarkstruct/struct.go"]
+ITER_SITE = re.compile(r"^\s*(\w+)\s*:?=\s*(?:[\w.()]+\.)?Iterate\(")
+CONTAINERS = ("iterstack = append(iterstack, %s)", "iters[i] = %s")
+
+
+def pairing_scan(repo):
+    """Every `x := ...Iterate(...)` in the interpreter and the libraries is followed by `defer x.Done()`,
+    or handed to a container that a deferred function drains, or (explicit Done) has x.Done() in front of
+    every return / break that follows it up to its last Done.  Returns (sites, unpaired)."""
+    import os
+    sites, bad = [], []
+    for rel in PAIR_FILES:
+        path = os.path.join(repo, rel)
+        if not os.path.exists(path):
+            continue
+        lines = open(path).read().split("\n")
+        for i, ln in enumerate(lines):
+            m = ITER_SITE.match(ln)
+            if not m or ln.strip().startswith("//"):
+                continue
+            x = m.group(1)
+            # end of the enclosing function: next line that is exactly "}"
+            end = next((j for j in range(i, len(lines)) if lines[j] == "}"), len(lines))
+            # in interp.go the unit is the `case` of the opcode switch
+            if rel.endswith("interp.go"):
+                end = next((j for j in range(i + 1, end) if re.match(r"^\t\tcase ", lines[j])), end)
+            body = lines[i + 1:end]
+            how = None
+            for j, b in enumerate(body[:10]):
+                if b.strip() == "defer %s.Done()" % x:
+                    how = "defer"
+                    break
+            if how is None and any(c % x in b for b in body for c in CONTAINERS):
+                how = "container"
+            if how is None and re.match(r"^\s*return\b", ln.strip().split(":=")[-1].strip()) is None:
+                dones = [j for j, b in enumerate(body) if b.strip() == "%s.Done()" % x]
+                if dones:
+                    how = "explicit"
+                    depth_nil = None
+                    for j, b in enumerate(body[:dones[-1]]):
+                        t = b.strip()
+                        if t.startswith("if %s == nil" % x):
+                            depth_nil = len(b) - len(b.lstrip())
+                            continue
+                        if depth_nil is not None:
+                            if t == "}" and len(b) - len(b.lstrip()) == depth_nil:
+                                depth_nil = None
+                            continue
+                        if re.match(r"^(return\b|break \w+)", t):
+                            ind = len(b) - len(b.lstrip())
+                            released = False
+                            for p in reversed(body[:j]):      # the statements of the same block, back to its opening line
+                                if p.strip() and len(p) - len(p.lstrip()) < ind:
+                                    break
+                                if p.strip() == "%s.Done()" % x:
+                                    released = True
+                            if not released:
+                                how = "leak"
+                                bad.append({"file": rel, "line": i + 1, "site": ln.strip(), "exit_line": i + 2 + j, "exit": t})
+                                break
+            if how is None:
+                how = "unpaired"
+                bad.append({"file": rel, "line": i + 1, "site": ln.strip()})
+            sites.append((rel, i + 1, x, how))
+    return sites, bad
 
 
 def par_mismatches(ctx, name, header, cases, fns, shard, workers=6):
@@ -88,12 +163,15 @@ def par_mismatches(ctx, name, header, cases, fns, shard, workers=6):
 def run(ctx):
     ctx.proofs()
     ctx.log("proofs audited")
+    sites, unpaired = pairing_scan(ctx.repo)
+    ctx.log("Iterate/Done pairing: %d sites (%s), %d not paired" % (
+        len(sites), ", ".join("%s %d" % (h, sum(1 for s in sites if s[3] == h)) for h in ("defer", "container", "explicit")), len(unpaired)))
     hx = ctx.go_build("c06")
     ctx.log("harness built")
     if ctx.quick():
-        args = ["-rand", "60", "-cancel-every", "40"]
+        args = ["-rand", "60", "-cancel-every", "12"]
     else:
-        args = ["-rand", "1500", "-cancel-every", "1"]
+        args = ["-rand", "600", "-cancel-every", "1"]
     lines = ctx.jsonl([hx, "-seed", str(ctx.seed)] + args, timeout=840)
     dist, tags = {}, {}
     terms, refs = [], []
@@ -130,7 +208,7 @@ def run(ctx):
                 refs.append(l)
     ctx.log("harness: %d scenarios, %d cancellation runs, %d Go-oracle violations; %d cases for Coq" % (
         sum(1 for l in lines if l["kind"] == "scenario"), ncancel, nviol, len(terms)))
-    bad_model, bad_spec = par_mismatches(ctx, "c06_cases", HEADER, terms, ["model_ok", "spec_ok"], shard=360 if ctx.quick() else 500)
+    bad_model, bad_spec = par_mismatches(ctx, "c06_cases", HEADER, terms, ["model_ok", "spec_ok"], shard=1000 if ctx.quick() else 500)
     for i in bad_spec:
         l = refs[i]
         ctx.finding(l["vkey"], "%s: the observation violates the specification (Spec.spec_after)" % l["family"],
@@ -140,7 +218,14 @@ def run(ctx):
         l = refs[only_model[0]]
         ctx.broken("correspondence:C06.Model", "model and implementation differ on %d scenario(s) where the specification is met, e.g. %s (%s)\n%s\nobserved %s\nterm %s" % (
             len(only_model), l["id"], l["family"], l.get("src"), l.get("res"), terms[only_model[0]][:1500]))
+    if len(sites) < 30:
+        ctx.broken("pairing-scan", "only %d Iterate sites recognised in the sources: the scan no longer reads the code" % len(sites))
+    if unpaired and not ctx.findings:
+        # the model assumes Done on every path (HIterDefer, SUnpack, SStarArgs): a site that is not paired is an
+        # obligation of the tie that no longer holds, even if no scenario above happened to reach it
+        ctx.broken("pairing:" + unpaired[0]["file"], "Iterate() without Done() on every path: %s" % unpaired[:3])
     cov = {
+        "iterate_sites": len(sites), "iterate_sites_unpaired": unpaired,
         "evaluations": len(lines), "distinct_nontrivial": len(set(terms)),
         "rule": "systematic product {list,dict,set} x {for, list/dict comprehension (1 and 2 clauses), *args (def / built-in callee), sequence assignment (arity 1..5), 31 iterating built-in/method expressions incl. sorted/min/max key= call-backs, Go push iterators Elements/Entries/.Elements()/.Entries()} x every Starlark mutator of the kind and every Go-API mutator x exits {exhaustion, break, continue, return, fail() at iteration i, panicking host built-in, range-body break/panic, Seq created but never ranged / ranged twice} x nesting (2 and 3 loops over the same collection, recursion through nested calls, built-ins inside loops) + seeded random compositions; each scenario also under step-limit cancellation at its step indices (every index in the thorough tier); distinct = distinct Coq terms (initial heap, program tree, observation)",
         "samples": [{"family": r["family"], "src": r.get("src"), "res": r.get("res")} for r in (refs[:2] + refs[len(refs) // 2: len(refs) // 2 + 2])],
